@@ -66,7 +66,7 @@ pub fn gen_tiles_shape(rng: &mut Rng, big: bool, shape: u64) -> TileMap {
 			let z = rng.range(10, 12) as u8;
 			put(&mut m, rng, z, 5, 5, None); put(&mut m, rng, z, 600, 5, None);
 			// (a third tile keeps block column 1 empty and the level box small enough for the model's slot enumeration)
-			if rng.chance(1, 2) { let y = 100 + rng.below(100) as u32; put(&mut m, rng, z, 700, y, None); }
+			if rng.chance(1, 2) { let y = 10 + rng.below(30) as u32; put(&mut m, rng, z, 700, y, None); }
 		}
 		7 => { // a dense rectangle of more than 1024 tiles on one level (readers that page through their store), tiny payloads
 			let z = rng.range(6, 7) as u8; let (x0, y0) = (rng.below(20) as u32, rng.below(20) as u32);
@@ -262,7 +262,7 @@ impl<'a> RoundTrip<'a> {
 				let cb = match comp { TileCompression::Uncompressed => 0u8, TileCompression::Gzip => 1, TileCompression::Brotli => 2 };
 				// correspondence with the Coq layout model: block grid and slot occupancy
 				let slots: u64 = pyramid.iter_levels().map(|b| b.count_tiles()).sum();
-				if nonempty.len() <= 400 && slots <= 200_000 {
+				if nonempty.len() <= 400 && slots <= 60_000 {
 					let lv: Vec<String> = pyramid.iter_levels().map(|b| format!("{}:{},{},{},{}", b.level, b.x_min, b.y_min, b.x_max, b.y_max)).collect();
 					let mut tl: Vec<String> = nonempty.keys().map(|(z, x, y)| format!("{z},{x},{y}")).collect(); tl.sort();
 					let mut bl: Vec<String> = d.blocks.iter().map(|b| format!("{},{},{},{},{},{},{}:{}", b.z, b.bx, b.by, b.x0, b.y0, b.x1, b.y1, rle(&b.occ))).collect(); bl.sort();
